@@ -135,13 +135,18 @@ func runC18(c *an.Ctx) {
 			})
 			return true
 		})
-		// it is the function's own unconditional statement, and Let does not delegate elsewhere
-		topLevel := false
-		for _, st := range f.Body.List {
-			if as, isAs := st.(*ast.AssignStmt); isAs && len(as.Lhs) == 1 {
-				if _, isIx := an.Unparen(as.Lhs[0]).(*ast.IndexExpr); isIx {
-					topLevel = true
-				}
+		// the store happens on every path through Let, and Let does not delegate elsewhere
+		lx := p.NewExplorer(f, an.Hooks{PreAssign: func(x *an.Explorer, lhs, rhs ast.Expr, stmt ast.Node, st *an.State) {
+			if ix, isIx := an.Unparen(lhs).(*ast.IndexExpr); isIx && p.FieldKey(info, ix.X) == "scope.variables" {
+				st.Set("stored", "1")
+			}
+		}})
+		lx.Run(nil)
+		c.States += lx.Visited
+		topLevel := len(lx.Exits) > 0 && lx.Undecided == ""
+		for _, ex := range lx.Exits {
+			if ex.Kind == an.ExitReturn && ex.State.Get("stored") == "" {
+				topLevel = false
 			}
 		}
 		delegates := len(p.CallsIn(f, "(*jet.Runtime).LetGlobal", "(*jet.Runtime).setValue", "(*jet.Runtime).Set")) > 0
@@ -157,7 +162,25 @@ func runC18(c *an.Ctx) {
 			})
 			return true
 		})
-		c.Check(n >= 3, "C18.shared", "(*Runtime).executeLetList", f.Pos(), ":= stores into the innermost scope's variables", ":= no longer stores into the current scope's variables map")
+		// decided on the paths (helpers the list was merged into are spliced in; a constant flag selects their
+		// branch): := stores into the current scope's variables and never goes through the rebinding of `=`
+		visits, rebinds := 0, false
+		lx := p.NewExplorer(f, an.Hooks{
+			PreAssign: func(x *an.Explorer, lhs, rhs ast.Expr, stmt ast.Node, st *an.State) {
+				if ix, isIx := an.Unparen(lhs).(*ast.IndexExpr); isIx && p.FieldKey(info, ix.X) == "scope.variables" && throughRuntime(p, info, ix.X) {
+					visits++
+				}
+			},
+			Call: func(x *an.Explorer, call *ast.CallExpr, st *an.State) {
+				switch an.CalleeName(info, call) {
+				case "(*jet.Runtime).executeSet", "(*jet.Runtime).setValue":
+					rebinds = true
+				}
+			},
+		})
+		lx.Run(nil)
+		c.States += lx.Visited
+		c.Check(n >= 1 && visits >= 1 && !rebinds && lx.Undecided == "", "C18.shared", "(*Runtime).executeLetList", f.Pos(), ":= stores into the innermost scope's variables", ":= no longer stores into the current scope's variables map (or can reach the rebinding of `=`)")
 	}
 	// SetOrLet: error of Set must not be dropped
 	if f := c.Fn("C18.shared", "(*Runtime).SetOrLet"); f != nil {
@@ -256,6 +279,15 @@ func runC18(c *an.Ctx) {
 		})
 		pr := p.ProbeFn(f, stores, an.Hooks{})
 		c.States += pr.X.Visited
+		var nilIdent *ast.Ident
+		an.InspectOwn(f, func(n ast.Node) bool {
+			if id, ok := n.(*ast.Ident); ok && nilIdent == nil {
+				if _, isNil := finfo.Uses[id].(*types.Nil); isNil {
+					nilIdent = id
+				}
+			}
+			return nilIdent == nil
+		})
 		for _, s := range stores {
 			ix := an.Unparen(s.(*ast.AssignStmt).Lhs[0]).(*ast.IndexExpr)
 			m := an.Str(ix.X)
@@ -265,6 +297,12 @@ func runC18(c *an.Ctx) {
 				for k, v := range st.Facts {
 					pk := an.PlainKey(k)
 					if !v && (pk == m+" == nil" || pk == "nil == "+m) {
+						nonNil = true
+					}
+				}
+				if !nonNil && nilIdent != nil {
+					// (the map may be named through a helper's receiver: let the explorer render it)
+					if v, known := pr.X.Truth(&ast.BinaryExpr{X: ix.X, Op: token.EQL, Y: nilIdent}, st); known && !v {
 						nonNil = true
 					}
 				}
@@ -413,19 +451,26 @@ func errorIface() *types.Interface {
 func countingLoop(f *an.Fn, fs *ast.ForStmt) (types.Object, string, bool) {
 	info := f.Info()
 	init, ok := fs.Init.(*ast.AssignStmt)
-	if !ok || len(init.Lhs) != 1 || len(init.Rhs) != 1 || an.Str(init.Rhs[0]) != "0" {
+	if !ok || len(init.Lhs) != len(init.Rhs) {
 		return nil, "", false
 	}
-	id, ok := init.Lhs[0].(*ast.Ident)
-	if !ok {
-		return nil, "", false
-	}
-	v := an.ObjOf(info, id)
 	cond, ok := an.Unparen(fs.Cond).(*ast.BinaryExpr)
 	if !ok || cond.Op != token.LSS {
 		return nil, "", false
 	}
-	if cid, ok := an.Unparen(cond.X).(*ast.Ident); !ok || an.ObjOf(info, cid) != v {
+	cid, ok := an.Unparen(cond.X).(*ast.Ident)
+	if !ok {
+		return nil, "", false
+	}
+	// the index: the variable of the init statement that starts at 0 and is compared with the bound
+	// (`for i := 0; …` or `for i, n := 0, <bound>; i < n; …`)
+	var v types.Object
+	for k, l := range init.Lhs {
+		if id, ok := l.(*ast.Ident); ok && an.ObjOf(info, id) == an.ObjOf(info, cid) && an.Str(init.Rhs[k]) == "0" {
+			v = an.ObjOf(info, id)
+		}
+	}
+	if v == nil {
 		return nil, "", false
 	}
 	post, ok := fs.Post.(*ast.IncDecStmt)
@@ -435,7 +480,15 @@ func countingLoop(f *an.Fn, fs *ast.ForStmt) (types.Object, string, bool) {
 	if pid, ok := an.Unparen(post.X).(*ast.Ident); !ok || an.ObjOf(info, pid) != v {
 		return nil, "", false
 	}
-	return v, an.Norm(f, cond.Y), true
+	bound := cond.Y
+	if bid, ok := an.Unparen(cond.Y).(*ast.Ident); ok {
+		for k, l := range init.Lhs {
+			if id, ok := l.(*ast.Ident); ok && an.ObjOf(info, id) == an.ObjOf(info, bid) && len(an.LocalDefs(f, an.ObjOf(info, bid))) == 1 {
+				bound = init.Rhs[k] // computed once in the init statement and not changed afterwards
+			}
+		}
+	}
+	return v, an.Norm(f, bound), true
 }
 
 // requireNumRule: Arguments.RequireNumOfArguments enforces both bounds (shared by C18.args and C14.count:
